@@ -43,6 +43,39 @@ SUM = {
  "C19-B": ("top-right corner y uses patch_dimensions_metric[1]", "patch row i >= 1 and patches that are not square in physical units"),
  "C20-A": ("CoordinateSystem.voxel gathers with the axis permutation instead of scattering", "any 3-D image (the permutation is a 3-cycle only there)"),
  "C20-B": ("AxisReduction interprets an integer axis in 'ijk' instead of 'xyz'", "axis addressed by matrix index on an image with a non-default origin"),
+ # ---- round 2 (agents were told what round 1 had produced and asked for something different / harder to notice)
+ "C01r2-A": ("CoordinateSystem.__init__ assigns voxel sizes to Cartesian axes by plain reversal", "3-D image whose 2nd and 3rd matrix axes have different voxel sizes"),
+ "C01r2-B": ("Image.opposite_corner computed in place on np.array(origin): integer-typed origin truncates", "integer-typed (default or user) origin together with a fractional dimension"),
+ "C02r2-A": ("subregion: upper clip of a physical (CoordinateArray) box is num_voxels-1", "physical box touching or exceeding the far border"),
+ "C02r2-B": ("Image.append tests 'not offset' instead of 'offset is None'", "append with offset exactly 0 on images with relative times but no dates"),
+ "C03r2-A": ("darsia.weight uses np.kron instead of np.outer for array weights", "normalising an image that is both a series and non-scalar"),
+ "C03r2-B": ("array volume cache coarsened from the previous cache instead of the native volume", "coarsening by 2 followed by coarsening by 3 (not nested) on one geometry object with array weights"),
+ "C04r2-A": ("Newton: distance evaluated before the Anderson mixing step", "Newton, aa_depth > 0, at least two iterations"),
+ "C04r2-B": ("Bregman stopping test uses the signed distance increment", "Bregman, distance decreasing in an iteration >= 2 while the other criteria are met"),
+ "C06r2-A": ("FVDivergence caches the assembled matrix per grid SHAPE (class-level dict)", "a second operator for a grid of the same shape but other voxel sizes in the same process"),
+ "C06r2-B": ("FVTangentialFaceReconstruction.__call__ flattens the stacked components in F order", "3-D grid and concatenate=True"),
+ "C07r2-A": ("face numbering offset derived from the previous axis' max face index", "3-D shapes with a single-cell middle axis, e.g. (2,1,2)"),
+ "C07r2-B": ("exterior_faces from boundary layers without np.unique in 2-D", "2-D grids with a single row or column"),
+ "C08r2-A": ("Schur complement cached at set-up and reused when reuse_solver is passed", "the first linear_solve of a fresh object already asks for reuse"),
+ "C08r2-B": ("compute_flux_update accumulates into a view of the caller's right-hand side", "the caller reuses its right-hand-side array (second solve, residual check)"),
+ "C09r2-A": ("voxel-centre -> voxel conversion casts with astype(int) instead of flooring", "voxel-centre maps with a positive shift (pulled-back centre -0.5 becomes 0)"),
+ "C09r2-B": ("AffineTransformation.inverse_array subtracts the translation in place", "float points, non-zero translation, caller reuses its array"),
+ "C10r2-A": ("IlluminationCorrection.correct_array drops its defensive copy", "optical time series without overwrite (series branch passes views of the input)"),
+ "C10r2-B": ("non-overwrite return path merges metadata with swapped precedence", "corrections that declare metadata updates (dimensions / origin / name)"),
+ "C11r2-A": ("Resize caches the conservation factor of its first call", "one Resize object applied to a second image with another voxel count"),
+ "C11r2-B": ("AxisReduction 'average' divides by the voxel count of the reversed axis", "3-D, mode average, reduction along x or y with different extents"),
+ "C13r2-A": ("_base_collection keeps the unpromoted integer baselines", "integer baselines + extra baselines + diff option other than absolute"),
+ "C13r2-B": ("LinearModel gets ScalingModel's isclose(scaling, 1) short-cut and drops the offset", "LinearModel with scaling 1 and a non-zero offset"),
+ "C14r2-A": ("LinearKernel.linear_combination adds the shift once after the loop", "LinearKernel(a != 0) with weights that do not sum to 1"),
+ "C14r2-B": ("StaticThresholdModel tests 'not threshold_upper' instead of 'is None'", "upper threshold exactly 0.0"),
+ "C16r2-A": ("MG.__call__ writes a size-limited depth back to self.depth", "a re-used MG object that solved a small array before a larger one"),
+ "C16r2-B": ("module-level cache of divergence / mass matrices keyed by (shape, lumping)", "two Wasserstein solver objects on grids of equal shape but different voxel sizes in one process"),
+ "C17r2-A": ("Image.subregion clips the caller's VoxelArray in place", "VoxelArray region of interest partly outside the image"),
+ "C17r2-B": ("OpticalImage.to_monochromatic('red'/'green'/'blue') converts the image itself", "image stored as BGR or HSV with a dtype other than float64"),
+ "C19r2-A": ("overlap in voxels computed with the voxel size of the other axis", "positive overlap and anisotropic voxels (rel_overlap * aspect > 1)"),
+ "C19r2-B": ("column ROI start j*(pv-ov) instead of j*pv-ov", "positive overlap and at least three patch columns"),
+ "C20r2-A": ("Image.slice indexes voxel_size (matrix order) with the Cartesian component index", "slice by Cartesian name on anisotropic voxels"),
+ "C20r2-B": ("cartesianToMatrixIndexing rewritten as flipud(img.T)", "arrays with trailing colour / time axes"),
 }
 res = json.load(open(f"{V}/seeded/RESULTS.json")) if os.path.exists(f"{V}/seeded/RESULTS.json") else {}
 for name, (what, needs) in sorted(SUM.items()):
@@ -55,6 +88,7 @@ for name, (what, needs) in sorted(SUM.items()):
     meta = dict(
         name=name,
         breaks_property=name[:3],
+        round=2 if "r2" in name else 1,
         change=what,
         needs_to_manifest=needs,
         produced_by="independent sub-agent given only the property text and a scratch worktree",
